@@ -1,20 +1,28 @@
 package main
 
 import (
+	"encoding/json"
 	"fmt"
 	"math/rand"
 	"reflect"
 
+	"gorm.io/driver/sqlite"
 	"gorm.io/gorm"
+	"gorm.io/gorm/logger"
 )
 
 // C19: DryRun / ToSQL send nothing and expose exactly the statement a real run sends.
+// Suite "dryrun": random chains (C01 grammar) x finishers x handle derivations; the operation families with hooks,
+// associations, batches, compound finishers ... live in c19_ops.go / c19_e2e.go (suite "ops").
 
 type c19Obs struct {
 	DryEvents   []string `json:"dry_events"`
+	CfgEvents   []string `json:"cfg_events"`
 	ToSQLEvents []string `json:"tosql_events"`
 	DrySQL      string   `json:"dry_sql"`
 	DryVars     []string `json:"dry_vars"`
+	CfgSQL      string   `json:"cfg_sql"`
+	CfgVars     []string `json:"cfg_vars"`
 	DryErr      string   `json:"dry_err"`
 	RealSQL     string   `json:"real_sql"`
 	RealArgs    []string `json:"real_args"`
@@ -30,14 +38,16 @@ func evKinds(es []Event) []string {
 	return out
 }
 
-func c19Case(db *gorm.DB, rec *Recorder, ch *Chain, fin Finisher) (obs c19Obs, verdict string) {
+// c19Case: dbDry is a handle opened with Config.DryRun on the same pool (nil = skip that run)
+func c19Case(db, dbDry *gorm.DB, rec *Recorder, ch *Chain, fin Finisher, dv c19Deriv) (obs c19Obs, verdict string) {
 	var vals []interface{}
 	if fin.Args != nil {
 		vals = fin.Args(ch.M)
 	}
 	// 1. DryRun session
 	rec.Reset()
-	dry := fin.Run(ch.Apply(db.Session(&gorm.Session{DryRun: true})), vals)
+	var dry *gorm.DB
+	dv.Wrap(db.Session(&gorm.Session{DryRun: true}), func(h *gorm.DB) { dry = fin.Run(ch.Apply(h), vals) })
 	des := rec.Snapshot()
 	obs.DryEvents = evKinds(des)
 	obs.DrySQL = dry.Statement.SQL.String()
@@ -50,25 +60,51 @@ func c19Case(db *gorm.DB, rec *Recorder, ch *Chain, fin Finisher) (obs c19Obs, v
 			verdict = "DryRun run reached the driver: " + e.String()
 		}
 	}
+	// 1b. DryRun by configuration
+	if dbDry != nil {
+		rec.Reset()
+		var cfg *gorm.DB
+		dv.Wrap(dbDry, func(h *gorm.DB) { cfg = fin.Run(ch.Apply(h), vals) })
+		ces := rec.Snapshot()
+		obs.CfgEvents = evKinds(ces)
+		obs.CfgSQL = cfg.Statement.SQL.String()
+		obs.CfgVars = normArgs(cfg.Statement.Vars)
+		for _, e := range ces {
+			if !isTxEvent(e) {
+				verdict = "DryRun (by configuration) run reached the driver: " + e.String()
+			}
+		}
+		if obs.CfgSQL != obs.DrySQL || !reflect.DeepEqual(obs.CfgVars, obs.DryVars) {
+			verdict = "DryRun by configuration exposes another statement than a DryRun session"
+		}
+	}
 	// 2. ToSQL
 	rec.Reset()
-	_ = db.ToSQL(func(tx *gorm.DB) *gorm.DB { return fin.Run(ch.Apply(tx), vals) })
+	str := db.ToSQL(func(tx *gorm.DB) *gorm.DB {
+		var r *gorm.DB
+		dv.Wrap(tx, func(h *gorm.DB) { r = fin.Run(ch.Apply(h), vals) })
+		return r
+	})
 	tes := rec.Snapshot()
 	obs.ToSQLEvents = evKinds(tes)
 	if len(tes) != 0 {
 		verdict = "ToSQL made driver calls: " + fmt.Sprint(evKinds(tes))
 	}
+	if want := db.Dialector.Explain(obs.DrySQL, dry.Statement.Vars...); str != want {
+		verdict = "ToSQL returns " + str + " but the DryRun session exposes " + want
+	}
 	// 3. real run inside an explicit transaction that is rolled back (restores the data)
 	tx := db.Begin()
 	rec.Reset()
-	real := fin.Run(ch.Apply(tx), vals)
+	var real *gorm.DB
+	dv.Wrap(tx, func(h *gorm.DB) { real = fin.Run(ch.Apply(h), vals) })
 	res := rec.Snapshot()
 	tx.Rollback()
 	if real.Error != nil {
 		obs.RealErr = real.Error.Error()
 	}
 	for _, e := range res {
-		if isTxEvent(e) {
+		if isTxEvent(e) || !c19IsStmtKind(e.Kind) { // prepare / stmt_close carry no bound values
 			continue
 		}
 		obs.RealSent = true
@@ -86,6 +122,82 @@ func c19Case(db *gorm.DB, rec *Recorder, ch *Chain, fin Finisher) (obs c19Obs, v
 	return
 }
 
+type c19ChainSpec struct {
+	CaseSeed int64  `json:"case_seed"`
+	Finisher string `json:"finisher"`
+	Deriv    string `json:"deriv"`
+}
+
+type c19ChainWorld struct {
+	db, dry *gorm.DB
+	rec     *Recorder
+	fins    []Finisher
+	dvs     []c19Deriv
+}
+
+func c19OpenChainWorld() *c19ChainWorld {
+	db, rec := openUsers()
+	sqlDB, _ := db.DB()
+	dry, err := gorm.Open(sqlite.Dialector{Conn: sqlDB}, &gorm.Config{NowFunc: fixedNowFunc, Logger: logger.Discard, DryRun: true})
+	if err != nil {
+		panic(err)
+	}
+	rec.Reset()
+	w := &c19ChainWorld{db: db, dry: dry, rec: rec}
+	w.fins = append(w.fins, readFinishers()...)
+	w.fins = append(w.fins, writeFinishers()...)
+	w.fins = append(w.fins, createFinishers()...)
+	for _, d := range c19Derivs() {
+		if !d.Explicit { // explicit transactions under ToSQL are finding F25; they are exercised by the "ops" suite
+			w.dvs = append(w.dvs, d)
+		}
+	}
+	return w
+}
+
+func (w *c19ChainWorld) eval(r *Result, spec c19ChainSpec, sample bool) {
+	var fin *Finisher
+	for i := range w.fins {
+		if w.fins[i].Name == spec.Finisher {
+			fin = &w.fins[i]
+		}
+	}
+	dv := w.dvs[0]
+	for _, d := range w.dvs {
+		if d.Name == spec.Deriv {
+			dv = d
+		}
+	}
+	if fin == nil {
+		r.Note("unknown finisher %q", spec.Finisher)
+		return
+	}
+	crng := rand.New(rand.NewSource(spec.CaseSeed))
+	ch := genChain(crng, w.db, 5, true)
+	if fin.Name == "RawScan" || fin.Name == "Exec" || fin.Name == "ExecNamed" {
+		ch = &Chain{M: &markerGen{}} // Raw/Exec take no chain conditions
+	}
+	obs, verdict := c19Case(w.db, w.dry, w.rec, ch, *fin, dv)
+	r.Case("dryrun", obs.DrySQL+"|"+fin.Name, obs.RealSent)
+	r.H("finisher", fin.Name)
+	r.H("deriv", dv.Name)
+	r.H("real_sent", fmt.Sprint(obs.RealSent))
+	r.H("chain_len", fmt.Sprint(len(ch.Steps)))
+	if obs.RealErr != "" {
+		e := obs.RealErr
+		if len(e) > 40 {
+			e = e[:40]
+		}
+		r.H("real_error", e)
+	}
+	if sample {
+		r.Sample(map[string]interface{}{"input": spec, "chain": ch.Desc(), "observed": obs})
+	}
+	if verdict != "" {
+		r.Violate(Violation{Kind: "e2e", Suite: "dryrun", Input: spec, Observed: map[string]interface{}{"chain": ch.Desc(), "obs": obs}, Expected: verdict})
+	}
+}
+
 func init() {
 	register("C19", func(r *Result, rng *rand.Rand, tier string) {
 		rounds := 1500
@@ -94,36 +206,18 @@ func init() {
 		} else if tier == "search" {
 			rounds = 20000
 		}
-		db, rec := openUsers()
-		var fins []Finisher
-		fins = append(fins, readFinishers()...)
-		fins = append(fins, writeFinishers()...)
-		fins = append(fins, createFinishers()...)
+		w := c19OpenChainWorld()
 		for i := 0; i < rounds && !expired(); i++ {
-			fin := fins[i%len(fins)]
-			ch := genChain(rng, db, 5, true)
-			if fin.Name == "RawScan" || fin.Name == "Exec" || fin.Name == "ExecNamed" {
-				ch = &Chain{M: &markerGen{}} // Raw/Exec take no chain conditions
-			}
-			obs, verdict := c19Case(db, rec, ch, fin)
-			in := map[string]interface{}{"chain": ch.Desc(), "finisher": fin.Name}
-			r.Case("dryrun", obs.DrySQL+"|"+fin.Name, obs.RealSent)
-			r.H("finisher", fin.Name)
-			r.H("real_sent", fmt.Sprint(obs.RealSent))
-			r.H("chain_len", fmt.Sprint(len(ch.Steps)))
-			if obs.RealErr != "" {
-				e := obs.RealErr
-				if len(e) > 40 {
-					e = e[:40]
-				}
-				r.H("real_error", e)
-			}
-			if i%211 == 0 {
-				r.Sample(map[string]interface{}{"input": in, "observed": obs})
-			}
-			if verdict != "" {
-				r.Violate(Violation{Kind: "e2e", Suite: "dryrun", Input: in, Observed: obs, Expected: verdict})
-			}
+			spec := c19ChainSpec{CaseSeed: rng.Int63(), Finisher: w.fins[i%len(w.fins)].Name, Deriv: w.dvs[rng.Intn(len(w.dvs))].Name}
+			w.eval(r, spec, i%211 == 0)
 		}
 	})
+	replayers["C19/dryrun"] = func(r *Result, input json.RawMessage) {
+		var spec c19ChainSpec
+		if err := json.Unmarshal(input, &spec); err != nil {
+			r.Note("bad replay input: %v", err)
+			return
+		}
+		c19OpenChainWorld().eval(r, spec, false)
+	}
 }
